@@ -1,8 +1,10 @@
 import ParryModel.Vec
 import ParryModel.C15.Model
+import ParryModel.C10.Model
 /-!
 # C16 model: `transformation/ear_clipping.rs` (`triangulate_ear_clipping`, observed through `TriMesh::from_polygon`)
-and `transformation/hertel_mehlhorn.rs` (`hertel_mehlhorn_idx`).
+and `transformation/hertel_mehlhorn.rs` (`hertel_mehlhorn_idx`, `hertel_mehlhorn`), `shape/convex_polygon.rs`
+(`ConvexPolygon::from_convex_polyline`), `shape/compound.rs` (`Compound::decompose_trimesh`).
 
 Literal transliteration.  Arrays are accessed with `getD`/`setIfInBounds`; theorem `C16.clip_inv` shows that every index the
 algorithm follows is in bounds, so the defaults are never read (the Rust `v[i]` cannot panic).
@@ -206,5 +208,71 @@ def hertelMehlhornIdx (pts : Array (V2 K)) (tris : Array (Nat × Nat × Nat)) : 
   let polys := tris.map fun t => #[t.1, t.2.1, t.2.2]
   let T := tris.size
   hmLoop pts ((2 * T + 2) * (3 * T + 3)) polys 0 0
+
+/-! ## `Compound::decompose_trimesh` glue: `hertel_mehlhorn` (points), `ConvexPolygon::from_convex_polyline` -/
+
+/-- `hertel_mehlhorn(vertices, indices)`: the index pieces mapped to points (`vertices[idx as usize]`) -/
+def hertelMehlhorn (pts : Array (V2 K)) (tris : Array (Nat × Nat × Nat)) : Array (Array (V2 K)) :=
+  (hertelMehlhornIdx pts tris).map fun p => p.map (pt pts)
+
+/-- the `for i1 in 0..points.len()` loop computing all `ccw_face_normal([&points[i1], &points[i2]])?`
+(`none` = the early `return None` of the `?`) -/
+def polylineNormals (points : Array (V2 K)) : Nat → Array (V2 K) → Option (Array (V2 K))
+  | 0, acc => some acc
+  | k + 1, acc =>
+    let i1 := points.size - (k + 1)
+    let i2 := (i1 + 1) % points.size
+    match C10.ccwFaceNormal2 (pt points i1) (pt points i2) with
+    | none => none
+    | some nrm => polylineNormals points k (acc.push nrm)
+
+/-- the in-place compaction loop `for i2 in 1..points.len()` of `from_convex_polyline`; state
+`(points, normals, nremoved)`, `k` iterations remain, current `i2 = n - k` (`n` = the original length) -/
+def pruneLoop (n : Nat) (eps : K) : Nat → Array (V2 K) → Array (V2 K) → Nat → Array (V2 K) × Array (V2 K) × Nat
+  | 0, points, normals, nremoved => (points, normals, nremoved)
+  | k + 1, points, normals, nremoved =>
+    let i2 := n - (k + 1)
+    let i1 := i2 - 1
+    if 1 - eps < (pt normals i1).dot (pt normals i2) then
+      pruneLoop n eps k points normals (nremoved + 1)
+    else
+      let points := points.setIfInBounds (i2 - nremoved) (pt points i2)
+      let normals := normals.setIfInBounds (i2 - nremoved) (pt normals i2)
+      pruneLoop n eps k points normals nremoved
+
+/-- `ConvexPolygon::from_convex_polyline(points)`: `(points, normals)` of the polygon, or `none` -/
+def fromConvexPolyline (points : Array (V2 K)) : Option (Array (V2 K) × Array (V2 K)) :=
+  if points.size = 0 then none else
+  let eps : K := Num.sqrt C10.eps                      -- `ComplexField::sqrt(DEFAULT_EPSILON)`
+  match polylineNormals points points.size #[] with
+  | none => none
+  | some normals =>
+    let nremoved := if 1 - eps < (pt normals 0).dot (pt normals (normals.size - 1)) then 1 else 0
+    let r := pruneLoop points.size eps (points.size - 1) points normals nremoved
+    let newLength := points.size - r.2.2
+    let points := r.1.extract 0 newLength               -- `truncate`
+    let normals := r.2.1.extract 0 newLength
+    if 2 < points.size then some (points, normals) else none
+
+/-- a shape of the compound built by `decompose_trimesh` -/
+inductive Piece (K : Type) where
+  | triangle (a b c : V2 K)
+  | polygon (points normals : Array (V2 K))
+
+/-- the `.map(|points| match points.len() { 3 => Triangle, _ => from_convex_polyline }).collect::<Option<Vec<_>>>()` -/
+def piecesOf : List (Array (V2 K)) → Option (List (Piece K))
+  | [] => some []
+  | p :: ps =>
+    let s : Option (Piece K) :=
+      if p.size = 3 then some (.triangle (pt p 0) (pt p 1) (pt p 2))
+      else (fromConvexPolyline p).map fun r => .polygon r.1 r.2
+    match s with
+    | none => none
+    | some s => (piecesOf ps).map (s :: ·)
+
+/-- `Compound::decompose_trimesh(trimesh)` on the mesh `(vertices, indices)`: the shapes of the compound (all with the
+identity pose), `none` when some piece is rejected by `from_convex_polyline` -/
+def decomposeTrimesh (pts : Array (V2 K)) (tris : Array (Nat × Nat × Nat)) : Option (List (Piece K)) :=
+  piecesOf (hertelMehlhorn pts tris).toList
 
 end Model.C16
